@@ -29,6 +29,7 @@ RULE = (
     "escaped wildcard, or a field name with a special character."
 )
 RULE += (" " + "(4c) the {regex} slot that every string template offers (field-bound, case-sensitive and unbound templates): strings up to length 3/4 over (backslash, '*', '?', a letter, the regex-literal delimiter), delimiter in {double quote, slash}, protected either by add_escaped_re or by re_escape; the literal is decoded by the target's rules, must end exactly at the closing delimiter and must match exactly the subjects (all strings up to length 3) the glob pattern matches.")
+RULE += (" Long strings: every interesting unit inside / before / after plain runs of 31..1025 characters for every configuration; random strings include runs of 40 and 70 plain characters.")
 ASSUMPTIONS = [
     "vf/ref/strings.py is the Sigma string syntax; glob semantics '*' any run, '?' one character",
     "python's re module defines regular-expression matching; subjects contain no newline",
@@ -409,6 +410,19 @@ def run(ctx) -> None:
                 if s not in seen_parse:
                     seen_parse.add(s)
                     ctx.do({"kind": "parse", "s": s})
+    # long plain runs around every interesting unit (sizes cross 32/64/128/256/1024)
+    for cfg in CONFIGS:
+        units = alphabet(cfg) + ["\\*", "\\?", "\\\\", "\\" + (cfg[0] or "x")]
+        for L in (31, 32, 33, 63, 64, 65, 66, 127, 128, 129, 255, 256, 257, 1023, 1025):
+            for u in units:
+                for shape in (0, 1, 2):
+                    i += 1
+                    if i % ctx.nshards != ctx.shard:
+                        continue
+                    s_ = ("a" * L + u + "b" * L, u + "a" * L, "a" * L + u)[shape]
+                    ctx.do({"kind": "render", "cfg": list(cfg), "s": s_})
+                    if cfg is CONFIGS[0]:
+                        ctx.do({"kind": "parse", "s": s_}) if L <= 66 else None
     # regex forms: exhaustive strings up to length 3 (4 thorough) over a regex-relevant alphabet
     ral = ["\\", "*", "?", "a", ".", "(", "A"] if ctx.tier == "quick" else ["\\", "*", "?", "a", ".", "(", "A", "[", "$", "|"]
     RL = 3 if ctx.tier == "quick" else 4
@@ -448,7 +462,7 @@ def run(ctx) -> None:
 @st.composite
 def random_cases(draw):
     kind = draw(st.sampled_from(["render", "parse", "regex", "regex_slot", "reesc", "reesc", "field"]))
-    wide = st.lists(st.sampled_from(list("\\*?\"'^%_.:&aB é+()[]{}|$-/") + ["\\\\", "\\*", "ß"]), max_size=20).map("".join)
+    wide = st.lists(st.sampled_from(list("\\*?\"'^%_.:&aB é+()[]{}|$-/") + ["\\\\", "\\*", "ß", "a" * 40, "b" * 70]), max_size=20).map("".join)
     if kind == "render":
         return {"kind": "render", "cfg": list(draw(st.sampled_from(CONFIGS))), "s": draw(wide)}
     if kind == "parse":
